@@ -10,10 +10,10 @@ use serde_json::{json, Value};
 use std::num::NonZero;
 use vph::refdec;
 
-pub const RULE: &str = "every input length 1..49 (block 16) × 3 signal kinds × channels {1,2} × depth {8,16} × seek policy {off, frames 1/2/3, seconds 1 at rates 16/24/44100/0} × declared/undeclared × padding {none, 4096, 0, 4+18k+δ for δ∈−8..8 (k = seek points of this configuration)} × writer start offset {0,7} × extra metadata {none, comment + 2 application blocks + picture}; plus long streams (lengths 65535, 65536, 65537, 65551..65553, 69632, 106496, 106596, 131075 PCM frames × block 16/4096 × seconds/frames policies at 4 rates × declared/undeclared × padding default/none); each finished device image is judged by the independent validator (sample count, parameters, frame-size extrema, block-size rule, MD5, every defined seek point = a real frame, ordering, placeholders last), by the device call log (nothing written before the stream start; once audio exists no write touches bytes that already hold audio) and by generate_seektable(file, same interval) == defined points; plus the byte (LE/BE) and channel writers × length 1..49 × channels {1,2} × depth {8,12,16,24,32} × declared/undeclared × seek table on/off judged by the independent validator; thorough adds >932067-frame streams";
+pub const RULE: &str = "every input length 1..49 (thorough 1..97) (block 16) × 3 signal kinds × channels {1,2} (thorough + 3, 8) × depth {8,16} (thorough + 24, 32) × seek policy {off, frames 1/2/3, seconds 1 at rates 16/24/44100/0} × declared/undeclared × padding {none, 4096, 0, 4+18k+δ for δ∈−8..8 (k = seek points of this configuration)} × writer start offset {0,7} × extra metadata {none, comment + 2 application blocks + picture}; plus long streams (lengths 65535, 65536, 65537, 65551..65553, 69632, 106496, 106596, 131075 PCM frames × block 16/4096 × seconds/frames policies at 4 rates × declared/undeclared × padding default/none); each finished device image is judged by the independent validator (sample count, parameters, frame-size extrema, block-size rule, MD5, every defined seek point = a real frame, ordering, placeholders last), by the device call log (nothing written before the stream start; once audio exists no write touches bytes that already hold audio) and by generate_seektable(file, same interval) == defined points; plus the byte (LE/BE) and channel writers × length 1..49 × channels {1,2} × depth {8,12,16,24,32} × declared/undeclared × seek table on/off judged by the independent validator; thorough adds >932067-frame streams";
 pub const ASSUMPTIONS: &[&str] = &["PCM values come from 3 fixed signal kinds (values: C01)"];
 pub fn bounds(quick: bool) -> Value {
-    json!({"lengths": "1..49", "padding_delta": "-8..8", "huge_stream": if quick { "not run" } else { "932100 frames of 16 constant samples, declared and undeclared, seektable_frames(1)" }})
+    json!({"lengths": if quick { "1..49; channels 1,2; depths 8,16" } else { "1..97; channels 1,2,3,8; depths 8,16,24,32" }, "padding_delta": "-8..8", "huge_stream": if quick { "not run" } else { "932100 frames of 16 constant samples, declared and undeclared, seektable_frames(1)" }})
 }
 
 fn signal(kind: usize, sig: &Sig, frames: usize) -> Vec<i32> {
@@ -250,10 +250,14 @@ fn front_ends(ctx: &Ctx, acc: &mut Acc) {
 pub fn run(ctx: &Ctx, acc: &mut Acc) {
     front_ends(ctx, acc);
     let seeks: Vec<(Seek, u32)> = vec![(Seek::Off, 44100), (Seek::Frames(1), 44100), (Seek::Frames(2), 44100), (Seek::Frames(3), 44100), (Seek::Seconds(1), 16), (Seek::Seconds(1), 24), (Seek::Seconds(1), 44100), (Seek::Seconds(1), 0)];
-    for len in 1..=49usize {
+    // thorough: lengths to 97 (6 blocks), 3 and 8 channels, 24- and 32-bit depths
+    let max_len = if ctx.quick { 49usize } else { 97 };
+    let chans: &[u8] = if ctx.quick { &[1, 2] } else { &[1, 2, 3, 8] };
+    let depths: &[u32] = if ctx.quick { &[8, 16] } else { &[8, 16, 24, 32] };
+    for len in 1..=max_len {
         for kind in 0..3 {
-            for ch in [1u8, 2] {
-                for bps in [8u32, 16] {
+            for &ch in chans {
+                for &bps in depths {
                     for &(seek, rate) in &seeks {
                         for declared in [true, false] {
                             let k = expected_points(seek, rate, len);
